@@ -11,6 +11,7 @@
     void NAME##_init(struct NAME *v) { v->data = 0; v->size = 0; } \
     void NAME##_free(struct NAME *v) { if (v->data) free(v->data); v->data = 0; v->size = 0; } \
     void NAME##_resize(struct NAME *v, size_t n) { \
+        VB_REF_APPLY(n, size_t); \
         if (n > VB_NMAX) { vb_exc = VB_EXC_STD; return; } \
         if (v->data == 0) { v->data = (T *)malloc(VB_NMAX * sizeof(T)); __CPROVER_assume(v->data != 0); v->size = 0; } \
         for (size_t i = v->size; i < n; i++) v->data[i] = 0; \
